@@ -6,6 +6,27 @@ def _ops(line):
     return [t for t in case if t[:2] in ("X/", "B/", "E/", "F/", "I/", "Y/")]
 
 
+def _plain_inits(lines):
+    """Statements of mixed-cluster histories whose initial cell demonstrably came from a node WITHOUT the
+    extension (the recorded column specs are the version-1 columns, which differ from version 0)."""
+    n = 0
+    for l in lines:
+        if not l.startswith("H ") or "| J/" not in l:
+            continue
+        case, obs = l.split(" | ", 1)
+        t = case.split()
+        ns = int(t[3], 16)
+        j = obs.split()[0][2:].split(";")
+        for i, st in enumerate(t[4:4 + ns]):
+            f = st.split("/")
+            vers = f[3].split(",")
+            v0 = vers[0].split("=")[1]
+            v1 = (vers[1] if len(vers) > 1 else vers[0]).split("=")[1]
+            if f[1] != "1" and v0 != v1 and i < len(j) and j[i] == v1:
+                n += 1
+    return n
+
+
 def _extra(lines, verdicts):
     """Histogram of what the histories contained (from the recorded exchanges)."""
     h = {"histories": len(lines), "ext": 0, "generic_server": 0, "client_calls": 0, "events": 0,
@@ -41,6 +62,10 @@ def _extra(lines, verdicts):
         h["new_metadata_id_rows"] += obs.count(">r:i")
         h["no_metadata_rows"] += obs.count(">r:n")
         h["resends"] += sum(1 for o in obs.split() if o.count(";x:") >= 1)
+    h["mixed_initial_cell_from_plain_node"] = _plain_inits(lines)
+    h["f17_uniform"] = sum(1 for v in verdicts if v and "class=stale-cached-metadata-without-ext ops" in v)
+    h["f17_mixed_reprepare_ignored"] = sum(1 for v in verdicts if v and "shape=re-preparation-ignored" in v)
+    h["f17_mixed_prepare_answer_discarded"] = sum(1 for v in verdicts if v and "shape=answer-at-preparation-discarded" in v)
     h["not_run_environment"] = sum(1 for v in verdicts if v and v.startswith("ok notrun="))
     return {"history_content": h}
 
@@ -68,7 +93,9 @@ def _post(lines, verdicts):
             "Session::prepare second rounds": (sum(1 for l in lines if l.startswith("P ") and l.split("|")[-1].count("@") > len(l.split()[1])), n // 400),
             "mixed-extension clusters": (sum(1 for l in lines if l.startswith("H ") and len(l.split()[1]) > 1), n // 40),
             "Session::prepare id mismatches": (obs.count("/e:mismatch"), n // 400),
-            "Session::prepare all-failed": (obs.count("/e:allfailed"), n // 600),
+            "Session::prepare all-failed": (obs.count("/e:allfailed"), n // 600),   # 2 fixed corpus cases + seeded ones
+            "initial cells taken from a node without the extension (mixed clusters)": (_plain_inits(lines), n // 100),
+            "F17 second shape (answer at preparation discarded, mixed clusters)": (sum(1 for v in verdicts if v and "shape=answer-at-preparation-discarded" in v), n // 300),
             "Session::prepare cases judged": (sum(1 for l, v in zip(lines, verdicts) if l.startswith("P ") and v == "ok"), n // 60),
             "known-finding histories": (sum(1 for v in verdicts if v and "class=stale-cached-metadata-without-ext" in v), 1),
         }
@@ -86,10 +113,10 @@ SPEC = {
     "search_n": 10000,
     "runner_timeout": 3000,
     "rule": ("one case = one seeded history against a fresh mock cluster (1-3 nodes, with/without the metadata-id "
-             "extension, a fifth of the multi-node clusters MIXED (there the nodes without the extension are at schema version 1 when Session::prepare runs, and the column specs of the fresh statements are recorded, so that the driver knows which kind of node each initial cell came from), 1-3 prepared statements with 2-4 schema versions each) and a real Session: 4-15 ops (client calls, node events, forced answers, concurrency markers; about 5.7 client calls per history) out of "
+             "extension, a fifth of the multi-node clusters MIXED (there the nodes without the extension are at schema version 1 when Session::prepare runs, and the column specs of the fresh statements are recorded, so that the driver knows which kind of node each initial cell came from), 1-3 prepared statements with 2-4 schema versions each) and a real Session: 4-15 ops (client calls, node events, forced answers, concurrency markers; about 5.6 client calls per history) out of "
              "execute / single-page execute / execute_iter (pager, 1-3 pages) / batch / pairs of CONCURRENT executes on two nodes (random node, use_cached_result_metadata, consistency, serial "
              "consistency, timestamp, page size, paging state) and node events {evicted, schema-changed, prepared, "
-             "id-changing}; about a sixth of the histories additionally force arbitrary (ill-behaved) answers. "
+             "id-changing}; about a fifth of the histories additionally force arbitrary (ill-behaved) answers. "
              "1/12 of the cases are Session::prepare cases (kind P: nodes at different schema versions / id salts / with forced errors before the prepare; both rounds of prepare_nongeneric recorded). non-trivial = the history contains at least one client call; distinct = distinct case lines"),
     "nontrivial": lambda ln: ln.startswith("P ") or any(t[:2] in ("X/", "B/", "I/") for t in ln.split("|")[0].split()),
     "trusted_base": [
@@ -106,8 +133,9 @@ SPEC = {
         "handle_result_metadata_new_id and reprepare are one atomic step of the interleaving model",
         "C14_faithful premises: the metadata id determines the columns, ids are non-empty, distinct statements have "
         "distinct ids and texts; it is stated for calls outside the QUADRANT (no extension and "
-        "use_cached_result_metadata on), which is larger than the known-finding class F17 (quadrant AND a "
-        "re-preparation announced other columns); C14_faithful_refuted is the counterexample inside the class; for the "
+        "use_cached_result_metadata on), which is larger than the known-finding class F17 (quadrant AND the node announced other columns than the "
+        "rows were decoded with: in a re-preparation, or — clusters whose nodes announce different columns — in its "
+        "answer at preparation, which Session::prepare discarded); C14_faithful_refuted is the counterexample inside the class; for the "
         "rest of the quadrant only C14_announced_in_quadrant (nothing is stored, rows without metadata are decoded with "
         "the columns of preparation; all connections without the extension) is proved",
         "environment: only session / mock-cluster start failures, exec:* request errors (timeout, empty plan, pool), "
